@@ -54,6 +54,26 @@ def apply_mutations(root, schema, kinds, muts):
             elif op == "setslice":
                 a, b = sorted((m["i"] % (n + 1), m["j"] % (n + 1)))
                 lst[a:b] = [val(v) for v in m["vs"]]
+            elif op == "delslice3":
+                del lst[slice(*m["sl"])]
+            elif op == "setslice3":
+                sl = slice(*m["sl"])
+                vs = [val(v) for v in m["vs"]]
+                if sl.step not in (None, 1):
+                    # extended slices need exactly as many values as they select
+                    k = len(range(*sl.indices(n)))
+                    vs = (vs * (k + 1))[:k]
+                lst[sl] = vs
+            elif op == "setitem":
+                if n:
+                    lst[m["i"] % n] = val(m["v"])
+            elif op == "extend":
+                lst.extend([val(v) for v in m["vs"]])
+            elif op == "iadd":
+                lst += [val(v) for v in m["vs"]]
+            elif op == "remove":
+                if n:
+                    lst.remove(lst[m["i"] % n])
             elif op == "reverse":
                 lst.reverse()
             elif op == "sort":
@@ -63,7 +83,7 @@ def apply_mutations(root, schema, kinds, muts):
                     list.__delitem__(lst, 0)
                     lst._renumber()
             applied.append(op)
-        except (KeyError, TypeError, ValueError) as e:
+        except (KeyError, TypeError, ValueError, IndexError) as e:
             applied.append("%s!%s" % (op, type(e).__name__))
     return applied
 
@@ -137,7 +157,9 @@ class C07(Property):
             "kinds": kinds, "sep": "_", "value": [{"s": "a"}, {"s": "b"}, {"s": "c"}],
             "muts": [{"target": 0, "op": "reverse"}, {"target": 0, "op": "insert", "i": 1, "v": {"s": "q"}},
                      {"target": 0, "op": "pop", "i": 0}, {"target": 0, "op": "sort"}]}
-        return [joined_in_dict, renumber]
+        stepped = dict(renumber, muts=[{"target": 0, "op": "delslice3", "sl": [None, None, 2]},
+                                       {"target": 0, "op": "append", "v": {"s": "z"}}])
+        return [joined_in_dict, renumber, stepped]
 
     def generate(self, rng, n, tier):
         for _ in range(n):
@@ -151,8 +173,12 @@ class C07(Property):
             value = fl.gen_value(rng, schema, kinds, hostile=0.05)
             muts = []
             for _ in range(rng.choice([0, 0, 1, 2, 3, 4])):
-                op = rng.choice(["insert", "append", "pop", "del", "delslice", "setslice", "reverse", "sort"])
-                m = {"target": rng.randint(0, 5), "op": op, "i": rng.randint(0, 6), "j": rng.randint(0, 6), "rev": rng.random() < 0.5}
+                op = rng.choice(["insert", "append", "pop", "del", "delslice", "setslice", "reverse", "sort",
+                                 "delslice3", "delslice3", "setslice3", "setitem", "extend", "iadd", "remove"])
+                sl = [rng.choice([None, None, 0, 1, 2, -1, -2, 5]), rng.choice([None, None, 0, 1, 2, 3, -1, 9]),
+                      rng.choice([None, None, 1, 2, -1, -2, 3])]
+                m = {"target": rng.randint(0, 5), "op": op, "i": rng.randint(0, 6), "j": rng.randint(0, 6),
+                     "rev": rng.random() < 0.5, "sl": sl}
                 lists = [s for s in fl.walk_schema(schema) if s["t"] == "list"]
                 if lists:
                     ms = rng.choice(lists)["member"]
